@@ -221,11 +221,10 @@ def install(tap, run):
         has_nan = bool(np.isnan(flat).any())
         if nan:
             if np.isnan(flat).all():
-                return
-            want = np.nanmax(flat)
-            for a in arrays:
-                if np.isnan(np.asarray(a, dtype="float64")).all():
-                    return  # numpy warns/returns nan for all-NaN slices: outside the statement
+                return  # nothing but NaN: the largest absolute value is undefined
+            want = np.nanmax(flat)  # NaN-aware: NaNs (even a whole array of them, in any position) are ignored
+            if any(np.isnan(np.asarray(a, dtype="float64")).all() for a in arrays):
+                run.count("class:maxabs_all_nan_array")
         else:
             want = np.max(flat)
         got = float(ev.result)
@@ -504,13 +503,22 @@ def run_case(run, tap, stream, index, rng):
                     if rng.random() < 0.3 and arr.size > 1:
                         arr = np.array(arr)
                         arr.ravel()[int(rng.integers(0, arr.size))] = np.nan
+                    if rng.random() < 0.12:
+                        arr = np.full(arr.shape, np.nan)  # an entirely blank array, in any position
                     if rng.random() < 0.2:
                         arr = -np.abs(arr)
                     if rng.random() < 0.15 and not np.isnan(arr).any():
                         arr = np.round(arr).astype("int64")
                     arrays.append(arr if rng.random() < 0.8 else arr.tolist())
                 has_nan = any(np.isnan(np.asarray(a, dtype="float64")).any() for a in arrays)
-                res = vd.maxabs(*arrays) if (has_nan or rng.random() < 0.5) else vd.maxabs(*arrays, nan=False)
+                with np.errstate(all="ignore"):
+                    res = vd.maxabs(*arrays) if rng.random() < 0.6 else vd.maxabs(*arrays, nan=False)
+                    if len(arrays) > 1:  # the answer cannot depend on the order of the arguments
+                        rev = vd.maxabs(*arrays[::-1], nan=True)
+                        fwd = vd.maxabs(*arrays, nan=True)
+                        run.evaluated("maxabs_order")
+                        if not ((np.isnan(rev) and np.isnan(fwd)) or rev == fwd):
+                            run.violation("maxabs_order", "maxabs depends on the order of its arguments", {"arrays": [np.asarray(a) for a in arrays], "forward": float(fwd), "reversed": float(rev)}, key="maxabs-order")
             run.sample("maxabs", {"arrays": [np.asarray(a) for a in arrays], "result": float(res)})
         elif stream == "reject":
             _reject(run, rng, vd)
@@ -565,6 +573,8 @@ def _reject(run, rng, vd):
         else:
             bad = [w, e, s, n, 0.0]
         cases.append(bad)
+    w, e, s, n = _region(rng, degenerate_ok=False)
+    cases += [[w, e, s, n, 0.0, 1.0], [w, e, s, n, 5.0, 2.0], [w, e, s, n, 0.0, 1.0, -1.0, 1.0], [w, e], np.array([w, e, s, n, 0.0, 1.0]), (w, e, s, n, 1.0, 2.0, 3.0)]
     cases.append([np.nextafter(1.0, 2.0), 1.0, 0.0, 1.0])  # W one ulp above E
     cases.append([0.0, 1.0, 1.0, np.nextafter(1.0, 0.0)])  # S one ulp above N
     entries = {
@@ -572,9 +582,11 @@ def _reject(run, rng, vd):
         "inside": lambda r: vd.inside(pts, r),
         "scatter_points": lambda r: vd.scatter_points(r, 5, random_state=0),
         "grid_coordinates": lambda r: vd.grid_coordinates(r, shape=(3, 3)),
-        "grid_coordinates_spacing": lambda r: vd.grid_coordinates(r, spacing=0.1),
+        "grid_coordinates_spacing": lambda r: vd.grid_coordinates(r, spacing=max(abs(float(r[1]) - float(r[0])), abs(float(r[-1]) - float(r[-2])), 1e-9) / 3),
         "BaseGridder.grid": lambda r: vd.Trend(1).fit(pts, pts[0]).grid(region=r, shape=(3, 3)),
         "CheckerBoard.region_": lambda r: vd.synthetic.CheckerBoard(region=r).region_,
+        "project_region": lambda r: vd.project_region(r, lambda x, y: (x, y)),
+        "pad_then_grid": lambda r: vd.grid_coordinates(vd.pad_region(r, 0.0) if len(r) == 4 else r, shape=(2, 2)),
     }
     for bad in cases:
         for name, call in entries.items():
